@@ -20,7 +20,7 @@ func init() {
 	fw.Register(&fw.Prop{
 		ID: "C08",
 		Rule: "shadow state-machine monitor: seeded random histories (5-120 steps) of leaf creation (tracked or not), unary / binary / Concat / comparison operations over existing tensors (including spent ones), BackPropagate(any existing tensor) and ResetGradContext(any existing tensor, true|false); the generator consults the model only to respect provisos (a) and (b) of the quantifier. After EVERY step, for EVERY tensor created so far: Gradient() nil-ness and identity (public API), hooked tracked / spent flags, and - where a back-propagation delivered something - the gradient value against the model's total derivative. Each history ends with destructive public-API probes (t.Scale(1) back-propagated) for every tensor, and is re-run with every leaf untracked to check that forward values are bit-identical. " +
-			"Non-trivial: the history contains an operation on a spent tensor, a reset, or a repeated back-propagation; distinct = the set of (state, action, state') transitions of the history hashed together with its length class. states/transitions observed are reported separately.",
+			"Non-trivial: the history contains an operation on a spent tensor, a reset, or a repeated back-propagation; distinct = the set of (state, action, state') transitions of the history hashed together with its length class. states/transitions observed are reported separately. Later additions: same-shape Reshape / Flatten, Pow(0), Var/StdAlong (size-1 dimensions included) in the op mix; calls that must be REJECTED between existing tensors as an action (nothing may change); a gradient tensor adopted as a leaf of its own (x.Gradient().ResetGradContext(b)) and used like any tensor.",
 		Assumptions: []string{
 			"binary operands have equal shapes (no expansion > 1, which is C07's subject)",
 			"results of a comparison OF a spent tensor are checked themselves (untracked, no gradient) but never used as operands: what their descendants are is read differently by two sentences of the statement, so no verdict is given there",
